@@ -4,7 +4,7 @@ harness/rt/src/bin/drv.rs."""
 import random
 
 OPS = {1: "recv", 2: "send", 3: "blocking", 4: "write", 5: "poll", 6: "pop", 7: "dropkey",
-       8: "cancel", 9: "token", 10: "dropdriver", 11: "peer_read", 12: "send_zc", 13: "pop_multishot"}
+       8: "cancel", 9: "token", 10: "dropdriver", 11: "peer_read", 12: "send_zc", 13: "pop_multishot", 14: "accept_multi", 15: "connect"}
 
 
 def gen_program(rng, mode):
@@ -36,11 +36,17 @@ def gen_program(rng, mode):
                 steps.append((1, rng.randrange(n_res), rng.choice([1, 2, 3, 5, 8, 16])))
             elif k < 0.78:
                 steps.append((2, rng.randrange(n_res), rng.choice([1, 3, 8, 40])))
-            elif k < 0.88 and drv == 0:
+            elif k < 0.86 and drv == 0:
                 steps.append((12, rng.randrange(n_res), rng.choice([1, 8, 64])))
+            elif k < 0.92:
+                steps.append((14, 0, 0))
+                if rng.random() < 0.7:
+                    steps.append((15, rng.choice([1, 2, 3]), 0))
             else:
                 steps.append((3, rng.choice([0, 1, 5, 15]), 0))
             nslots += 1
+        elif what == "write" and rng.random() < 0.15:
+            steps.append((15, rng.choice([1, 2]), 0))
         elif what == "write":
             res = rng.randrange(n_res)
             k = rng.choice([1, 2, 3, 5, 9])
